@@ -1,6 +1,7 @@
 """C13: package rendering is deterministic and loses or duplicates no object.
 
-Theorems: props/C13.v (collector laws for all file lists and manifests, template stage refuted + partial).
+Theorems: props/C13.v (collector laws for all file lists and manifests; the template stage as fixed by
+10a6940 is a function of the file map for every enumeration; the pre-fix stage stays refuted as a record).
 Run-time part: generated packages are taken N times through the deployer's real sequence
 (harness mode `render`), every repetition from a fresh file map; the harness reports what the
 collection stage started from and what came out; `C13Corr.judge` evaluates model agreement, the
@@ -408,25 +409,47 @@ def cm(name, phase, key, val):
 
 
 def witness_packages():
+    """The packages that were order-dependent before commits 10a6940/514b770; they are ordinary corpus
+    members now and must render the same way every time."""
     man = manifest_text("witness", ["one", "two"], None, [], False, False)
+    common = {L_PACKAGE: "witness", L_INSTANCE: "inst"}
+
+    def exp(*objs):
+        out = {}
+        for phase, name in objs:
+            out.setdefault(phase, []).append({"id": "ConfigMap//" + name, "annos": {}, "labels": dict(common),
+                                              "collision": "", "condmap": False})
+        return [{"name": p, "objs": out[p]} for p in ("one", "two") if p in out]
+
     ws = []
-    # F-C13: a.yaml.gotmpl reads b.yaml, which b.yaml.gotmpl overwrites
+    # a.yaml.gotmpl reads b.yaml, which b.yaml.gotmpl overwrites
     ws.append(("witness:getfile", {
         "manifest.yaml": man, "b.yaml": cm("b", "one", "v", "static"), "b.yaml.gotmpl": cm("b", "one", "v", "templated"),
-        "a.yaml.gotmpl": cm("a", "two", "copy", '{{ getFile "b.yaml" | fromYAML | dig "data" "v" "none" | quote }}')}, {}))
+        "a.yaml.gotmpl": cm("a", "two", "copy", '{{ getFile "b.yaml" | fromYAML | dig "data" "v" "none" | quote }}')}, {},
+        exp(("one", "b"), ("two", "a"))))
     # the same through getFileGlob and in a sub directory
     ws.append(("witness:getfile", {
         "manifest.yaml": man, "d/b.yaml": cm("b", "one", "v", "static"), "d/b.yaml.gotmpl": cm("b", "one", "v", "templated"),
         "d/c.yaml.gotmpl": cm("c", "one", "v", "c"),
-        "a.yaml.gotmpl": cm("a", "two", "copy", '{{ getFileGlob "d/*.yaml" | toJson | sha256sum | quote }}')}, {}))
+        "a.yaml.gotmpl": cm("a", "two", "copy", '{{ getFileGlob "d/*.yaml" | toJson | sha256sum | quote }}')}, {},
+        exp(("two", "a"), ("one", "b"), ("one", "c"))))
+    # a reader that sorts AFTER the writer: it must still see the packaged b.yaml (the snapshot), which
+    # shows in an annotation of the rendered object
+    zexp = exp(("one", "b"), ("two", "z"))
+    zexp[1]["objs"][0]["annos"] = {"copy": "static"}
+    ws.append(("witness:getfile", {
+        "manifest.yaml": man, "b.yaml": cm("b", "one", "v", "static"), "b.yaml.gotmpl": cm("b", "one", "v", "templated"),
+        "z.yaml.gotmpl": cm("z", "two", "x", "y").replace(
+            "  annotations:\n", '  annotations:\n    copy: {{ getFile "b.yaml" | fromYAML | dig "data" "v" "none" | quote }}\n')},
+        {}, zexp))
     # sprig keys / values
     for fn in MAP_ORDER:
         ws.append(("witness:keys", {
             "manifest.yaml": man,
             "a.yaml.gotmpl": cm("a", "one", "k", '{{ %s .config.tags | join "," | quote }}' % fn)},
-            {"tags": {"a": "1", "b": "2", "c": "3", "d": "4", "e": "5"}}))
-    # output named like a template
-    ws.append(("witness:insert", {"manifest.yaml": man, "c.yaml.gotmpl.gotmpl": cm("c", "one", "v", "x")}, {}))
+            {"tags": {"a": "1", "b": "2", "c": "3", "d": "4", "e": "5"}}, exp(("one", "a"))))
+    # output named like a template (it is not a YAML file, so no object comes of it)
+    ws.append(("witness:insert", {"manifest.yaml": man, "c.yaml.gotmpl.gotmpl": cm("c", "one", "v", "x")}, {}, []))
     return ws
 
 
@@ -441,8 +464,8 @@ def gen(seed, tier):
     r = vlib.rng(seed, "C13")
     n, reps, dreps, wreps = (60, 20, 3, 200) if tier == "quick" else (600, 50, 5, 400)
     scs = []
-    for cls, files, cfg in witness_packages():
-        scs.append({"class": cls, "expected": None, "expect_err": None,
+    for cls, files, cfg, expected in witness_packages():
+        scs.append({"class": cls, "expected": expected, "expect_err": None,
                     "harness": harness_scenario(files, "", "inst", cfg, {"kubernetes": {"version": "v1.29.0"}},
                                                 wreps, dreps)})
     defects = sorted(DEFECTS)
@@ -523,8 +546,23 @@ def case_term(g, identical, expected):
     return cP(sc, cP(cB(identical), out), exp)
 
 
-JUDGE = ("(fun c => let '(s, (i, o), e) := c in "
-         "(agree c, monitor c, monitor (s, (true, o), e), expect_ok c))")
+TEMPLATE_SUFFIX = ".gotmpl"   # packagetypes/utils.go:13
+
+
+def tcase_term(g):
+    """What the template stage was given and what it left behind (paths and content digests interned)."""
+    pid, did = Intern(start=1), Intern(start=1)
+    before, after = g["files_before"] or {}, g["files_after"] or {}
+    tm = sorted(p for p in before if p.endswith(TEMPLATE_SUFFIX))
+    fl = lambda m: cL([cP(cN(pid(p)), cN(did(d))) for p, d in sorted(m.items())])
+    # templates that are only in `after` matter too: the model must not execute them
+    tm_all = sorted(set(tm) | {p for p in after if p.endswith(TEMPLATE_SUFFIX)})
+    return cP(fl(before), cL([cN(pid(p)) for p in tm_all]),
+              cL([cP(cN(pid(p)), cN(pid(p[:-len(TEMPLATE_SUFFIX)]))) for p in tm_all]), fl(after))
+
+
+JUDGE = ("(fun ct => let '(c, t) := ct in let '(s, (i, o), e) := c in "
+         "(agree c, monitor c, monitor (s, (true, o), e), expect_ok c, tagree t))")
 
 
 def nondet_identity(cls):
@@ -574,8 +612,10 @@ def sweep_functions(run):
         run.violation(ID_IMPURE % h, {"function": h, "scenario": "template function table of RenderTemplates",
                                       "impl": {"allowed": allowed}}, True)
     if ohits:
-        # the names alone do not decide it (a tree may wrap them to sort); the witness packages do
-        run.notes.append("function table offers sprig functions documented as map-order dependent: " + ",".join(ohits))
+        # the names alone decide nothing (since 514b770 they are wrapped to order by key); the keys/values
+        # packages of the corpus do
+        run.notes.append("function table has names sprig documents as map-order dependent (%s); "
+                         "their determinism is checked by the keys/values packages" % ",".join(ohits))
     unknown = sorted(set(allowed) - set(obs["sprig_all"]) - set(KNOWN_EXTRA) - set(obs["builtins"]))
     if unknown:
         run.violation("corr:C13/template function of unknown provenance: " + ",".join(unknown),
@@ -593,8 +633,8 @@ def check(run, tier, seed, replay=None):
     run.assumptions += [
         "CEL evaluation, YAML parsing and template execution are taken as reported by the real stages (oracles of the model); "
         "their results are cross-checked against the generator's own knowledge of every generated package",
-        "map iteration orders are sampled (N renders from fresh maps), not enumerated; the collector is proved order-independent "
-        "for all orders, the template stage only under the independence hypothesis (refuted in general, F-C13)",
+        "map iteration orders are sampled (N renders from fresh maps), not enumerated; collector and template stage (as fixed "
+        "by 10a6940) are proved order-independent for all enumerations in the model",
         "manifest phase names pairwise different (ValidatePackageManifest) and paths free of NUL bytes, checked per case",
         "validateConstraints (needs an API client) is covered by C16; the harness runs Deploy with no constraints",
     ]
@@ -645,22 +685,28 @@ def check(run, tier, seed, replay=None):
                 run.violation("corr:C13/case outside the model's hypotheses", slim(sc, obs), False)
                 continue
             g["pname"] = sc["harness"]["package"]["name"]
-            terms.append(case_term(g, obs["all_identical"], sc["expected"]))
+            terms.append(cP(case_term(g, obs["all_identical"], sc["expected"]), tcase_term(g)))
             where.append((i, g))
-    res, logs = vlib.judge_cases("C13", IMPORTS, JUDGE, terms, 4, shard=60)
+    res, logs = vlib.judge_cases("C13", IMPORTS, JUDGE, terms, 5, shard=60)
     for l in logs:
         run.violation("corr:C13/coq-eval", {"correspondence": "coq evaluation failed", "log": l}, False)
     for (i, g), r in zip(where, res):
         if r is None:
             continue
         sc, obs = scs[i], outs[i]["obs"]
-        agree, mon, mon_ident, exp_ok = r
+        agree, mon, mon_ident, exp_ok, tagree = r
+        if not tagree:
+            run.violation("corr:C13/template stage model and implementation differ",
+                          dict(slim(sc, obs), correspondence="C13Corr.tagree", files_before=g["files_before"],
+                               files_after=g["files_after"]), False)
         if not mon_ident:
             run.violation(ID_COLLECT, slim(sc, obs), True)
         elif mon != obs["all_identical"]:
             run.violation("corr:C13/monitor and harness disagree on repeated renders", slim(sc, obs), False)
         if sc["expected"] is not None and not exp_ok:
-            run.violation(ID_EXPECT, dict(slim(sc, obs), expected=sc["expected"]), True)
+            # for the formerly order-dependent packages a wrong result is the old defect coming back
+            ident = nondet_identity(sc["class"]) if sc["class"].startswith("witness:") else ID_EXPECT
+            run.violation(ident, dict(slim(sc, obs), expected=sc["expected"]), True)
         if not agree:
             run.violation("corr:C13/collector model and implementation differ",
                           dict(slim(sc, obs), correspondence="C13Corr.agree"), False)
@@ -668,7 +714,8 @@ def check(run, tier, seed, replay=None):
     run.cov["packages"] = len(scs)
     run.cov["renders"] = renders
     run.cov["rule"] = (
-        "fixed witness packages first, then structured random packages (1-4 phases, 1-8 object files from a pool of "
+        "fixed corpus first (the getFile / keys-values / double-suffix packages that were order-dependent before "
+        "10a6940 and 514b770), then structured random packages (1-4 phases, 1-8 object files from a pool of "
         "sort-order-stressing paths, 1-3 documents each, ~45%% templates with helpers/include/guards/range/getFile of static "
         "files, CEL condition annotations, conditional paths, images from a lock file, ~15%% multi-component), ~16%% with one "
         "injected defect and a known rejection class, ~12%% byte-damaged; each rendered N times from fresh file maps through the "
